@@ -73,6 +73,15 @@ CLAIMED['C03'] = dict(
     technique="TLA+ design models checked by TLC + TLC trace validation of real fits, merge decisions and sweep transforms",
     design_ref="DESIGN.md §5.3-§5.5, §6 C03")
 
+CLAIMED['C18'] = dict(
+    text="Design: TLC model-checks specs/Chained.tla (level-by-level merge of rare members into their parent, frequencies taken once per level) over 6 hierarchy shapes (2-3 levels, uneven "
+         "fan-out, a leaf attached to the top, a lone root) x all counts 0..2 (3 thorough) per node x 3 thresholds x missing counts, against the recursive characterisation of C18 "
+         "(FinalLeader / Pooled of ChainedOps.tla), with termination. Binding (code->spec): real ChainedDiscretizer fits + transforms on seeded random hierarchies incl. never-observed members, "
+         "intermediate names observed directly, numeric leaves, missing rows and unknown values under both unknown_handling policies, judged by TLC with specs/ChainedTrace.tla.",
+    note="Trusted: TLC, the projection of drivers/chained.py (node ids by string form, direct counts). Hierarchies beyond the 6 design shapes are covered by sampled conformance only.",
+    technique="TLA+ design model checked by TLC + TLC trace validation of real fits",
+    design_ref="DESIGN.md §5.4, §6 C18")
+
 NOT_YET = "check not built yet in this round (planned, see DESIGN.md §9); no claim is made"
 
 checks, na = [], []
